@@ -6,6 +6,8 @@ HERE = os.path.dirname(os.path.dirname(os.path.abspath(__file__)))
 ap = argparse.ArgumentParser()
 ap.add_argument("--checks", default=",".join("C%02d" % i for i in range(1, 21)))
 ap.add_argument("--mutants", default="")
+ap.add_argument("--all", action="store_true", help="every check against every change (hours); default: the target property's check and its neighbours")
+ap.add_argument("--redo", action="store_true")
 ap.add_argument("--out", default=os.path.join(HERE, "sensitivity", "matrix.json"))
 a = ap.parse_args()
 checks = a.checks.split(",")
@@ -19,6 +21,9 @@ if a.mutants:
     want = set(a.mutants.split(","))
     items = [x for x in items if x[0] in want]
 matrix = json.load(open(a.out)) if os.path.exists(a.out) else {}
+RELATED = {"C01": "C01,C02,C03,C05,C09", "C02": "C02,C01,C06", "C03": "C03,C04,C16", "C04": "C04,C03,C12", "C05": "C05,C01,C03", "C06": "C06,C02,C04",
+           "C07": "C07,C08", "C08": "C08,C03", "C09": "C09,C01,C05", "C10": "C10,C11,C12", "C11": "C11,C10,C05", "C12": "C12,C04,C14", "C13": "C13,C12,C16",
+           "C14": "C14,C15", "C15": "C15,C14", "C16": "C16,C03,C13", "C17": "C17,C03", "C18": "C18,C05", "C19": "C19", "C20": "C20"}
 for name, patch in items:
     m = tempfile.mkdtemp(prefix="mut_")
     try:
@@ -30,7 +35,10 @@ for name, patch in items:
             print(name, "PATCH FAILED", r.stdout.decode()[-200:])
             continue
         row = matrix.setdefault(name, {})
-        for c in checks:
+        todo = checks if a.all else [c for c in RELATED.get(name[:3].upper(), a.checks).split(",") if c in checks]
+        for c in todo:
+            if c in row and not a.redo:
+                continue
             env = dict(os.environ, SDPV_REPO=os.path.join(m, "repo"), SDPV_EVIDENCE_DIR=os.path.join(m, "ev"), SDPV_REPLAY_DIR=os.path.join(m, "rp"), SDPV_NO_SHRINK="1")
             t0 = time.time()
             p = subprocess.run(["/venv/bin/python", os.path.join(HERE, "run_check.py"), c], env=env, capture_output=True, timeout=3600)
